@@ -255,6 +255,7 @@ func runC11(c *core.Ctx) {
 	c.Rule("R3", "select states that did not enqueue return a provably non-nil error", 2)
 	c.Rule("R4", "closing through a handler context closes the channel before returning, and a flush failure of the buffered writer is reported (shared with C05-R9, C17 Flush)", 2)
 	importObligations(c, runC05, "R4", func(o *core.Obligation) bool { return o.Rule == "R9" })
+	importObligations(c, runC14, "R4", func(o *core.Obligation) bool { return strings.Contains(o.Key, "ReadFrom/write-error") })
 	importObligations(c, runC17, "R4", func(o *core.Obligation) bool { return strings.Contains(o.Key, "/Flush/") || o.Rule == "R5" })
 
 	entries := []string{"Write", "Write1", "Writev", "CtxWrite1", "CtxWritev", "ReadFrom"}
